@@ -1,8 +1,35 @@
 """Registry: property id -> check function."""
 import json
 
+import time
+
+import conc
 import minthist
-from core import tier
+from core import tier, write_evidence
+
+ASSUME = ["SQLite gives per-call atomicity (a crash or a context switch happens between storage calls, not inside one)",
+          "the Lightning model stands in for LND/CLN",
+          "harness registry/projection reports facts correctly"]
+
+
+def merged(prop, seq_kwargs, scns):
+    """Sequential TLC-generated histories + exhaustive interleavings of concurrent scenarios."""
+    t0 = time.time()
+    cov1, v1 = minthist.check(prop, collect=True, **seq_kwargs)
+    cov2, v2, _ = conc.check(prop, scns)
+    cov = dict(cov1)
+    cov["states"] = cov1["states"] + cov2["states"]
+    cov["transitions"] = cov1["transitions"] + cov2["transitions"]
+    cov["traces_validated_against_impl"] = cov1["traces_validated_against_impl"] + cov2["traces_validated_against_impl"]
+    cov["evaluations"] = cov1["evaluations"] + cov2["evaluations"]
+    cov["distinct_nontrivial"] = cov1["distinct_nontrivial"] + cov2["distinct_nontrivial"]
+    cov["samples"] = cov1["samples"] + cov2["samples"]
+    cov["sequential"] = {k: cov1[k] for k in ("events_by_kind", "accepted", "rejected", "generator_constants", "tags_of_other_properties")}
+    cov["concurrent"] = {k: cov2[k] for k in ("scenarios", "exhaustive", "rejected_executions", "rejected_signatures", "rule")}
+    cov["known_findings_seen"] = cov1["known_findings_seen"] + cov2["known_findings_seen"]
+    cov["exhaustive"] = False
+    write_evidence(prop, "model_checking", cov, time.time() - t0, v1 + v2, ASSUME)
+    return 1 if (v1 + v2) else 0
 
 CHECKS = {}
 
@@ -16,7 +43,7 @@ def reg(p):
 
 @reg("C01")
 def c01():
-    return minthist.check("C01")
+    return merged("C01", {}, conc.c01_scenarios())
 
 
 @reg("C02")
@@ -27,8 +54,8 @@ def c02():
 
 @reg("C03")
 def c03():
-    return minthist.check("C03", profile=["mintquote", "settle", "notify", "pollmint", "mint", "meltquote", "melt", "restart", "swap"],
-                          gen_overrides={"MaxMq": 5})
+    return merged("C03", dict(profile=["mintquote", "settle", "notify", "pollmint", "mint", "meltquote", "melt", "restart", "swap"],
+                              gen_overrides={"MaxMq": 5}), conc.c03_scenarios())
 
 
 @reg("C05")
